@@ -141,6 +141,9 @@ def handleIo (op : String) (a : List String) (impl : String) : Option Verdict :=
     -- every write fails at offset 0: `Wr` with `failAt = some 0` makes both writers fail (C18.write_failure_surfaces_*)
     if impl == "NO-DEV-FULL" then some (.ok "devfull-unavailable")
     else if impl.startsWith "ERR|" && !(impl.startsWith "ERR|0|") then some (.ok s!"devfull-{cmd}-error") else some (.bad "ERR|<non-zero>|… (the write failure must surface)")
+  | "io.epipe", [cmd, _args, _sh, _bs] =>
+    -- the very first write fails (closed pipe): `Wr` with `failAt = some 0`; the failure must surface as a non-zero exit status
+    if impl.startsWith "ERR|" && !(impl.startsWith "ERR|0") then some (.ok s!"epipe-{cmd}-error") else some (.bad "ERR|<non-zero> (the write failure must surface)")
   | "io.overwrite", [fmt, pr, _sh1, _bs1, sh2, bs2] => do
     let p ← pr.toNat?; let shape ← parseNats sh2; let bits ← parsePatterns bs2
     let fileE := if fmt == "npy" then writeNpy shape bits else .ok (asciiBytes (writeText shape bits p))
